@@ -1059,7 +1059,7 @@ func TestOracleSelfTest(t *testing.T) {
 	for _, v := range variants {
 		hits := map[string]int{}
 		n := 0
-		for _, b := range []int{-1, 0, 1, 2} {
+		for _, b := range []int{-1, 0, 1} {
 			enumScriptsOver(sites, bound(b)+1, func(script []step) {
 				sc := &scenario{Mode: modeDir, Budget: b, Script: script, Overwrite: true}
 				d, err, pan := runScenario(sc, variantSubmit(v), func(d *vcsDouble) { d.cacheManifest = v.cacheRead })
